@@ -247,6 +247,7 @@ pub struct MockServer {
     pub port: u16,
     fault: Arc<AtomicU8>,
     slow_ms: Arc<AtomicU64>,
+    own_delay_ms: Arc<AtomicU64>,
     live: Arc<Mutex<HashMap<u64, Arc<Notify>>>>,
     shared: Arc<Shared>,
     accept_task: tokio::task::JoinHandle<()>,
@@ -258,6 +259,8 @@ impl MockServer {
         let port = listener.local_addr()?.port();
         let fault = Arc::new(AtomicU8::new(0));
         let slow_ms = Arc::new(AtomicU64::new(0));
+        let own_delay_ms = Arc::new(AtomicU64::new(0));
+        let od2 = own_delay_ms.clone();
         let live: Arc<Mutex<HashMap<u64, Arc<Notify>>>> = Arc::new(Mutex::new(HashMap::new()));
         let label = cfg.label.clone();
         let ip = cfg.ip.clone();
@@ -279,7 +282,7 @@ impl MockServer {
                 }
                 let conn = sh2.conn_seq.fetch_add(1, Ordering::SeqCst) + 1;
                 let kill = Arc::new(Notify::new());
-                let sess = Session::new(idx, conn, cfg.clone(), sh2.clone(), f2.clone(), s2.clone());
+                let sess = Session::new(idx, conn, cfg.clone(), sh2.clone(), f2.clone(), s2.clone(), od2.clone());
                 let l3 = l2.clone();
                 let sh3 = sh2.clone();
                 let kill2 = kill.clone();
@@ -295,7 +298,7 @@ impl MockServer {
                 });
             }
         });
-        Ok(MockServer { idx, label, ip, port, fault, slow_ms, live, shared, accept_task })
+        Ok(MockServer { idx, label, ip, port, fault, slow_ms, own_delay_ms, live, shared, accept_task })
     }
 
     pub fn set_fault(&self, f: Fault) {
@@ -303,6 +306,13 @@ impl MockServer {
     }
     pub fn set_slow(&self, ms: u64) {
         self.slow_ms.store(ms, Ordering::SeqCst);
+    }
+    /// delay the reply to the next pgcat-own query (health check `;`) by this many ms (one shot)
+    pub fn slow_next_own(&self, ms: u64) {
+        self.own_delay_ms.store(ms, Ordering::SeqCst);
+    }
+    pub fn own_delay_handle(&self) -> Arc<AtomicU64> {
+        self.own_delay_ms.clone()
     }
     /// number of authenticated sessions whose socket is still open
     pub fn live_sessions(&self) -> usize {
@@ -359,6 +369,7 @@ struct Session {
     shared: Arc<Shared>,
     fault: Arc<AtomicU8>,
     slow_ms: Arc<AtomicU64>,
+    own_delay_ms: Arc<AtomicU64>,
     label: String,
     // state
     txn: u8,
@@ -395,6 +406,7 @@ fn display_name(lower: &str) -> String {
 }
 
 struct Reply {
+    own: bool,
     bytes: Vec<u8>,
     dir: Directive,
     tags: Vec<Tag>,
@@ -409,6 +421,7 @@ impl Session {
         shared: Arc<Shared>,
         fault: Arc<AtomicU8>,
         slow_ms: Arc<AtomicU64>,
+        own_delay_ms: Arc<AtomicU64>,
     ) -> Session {
         let label = cfg.label.clone();
         Session {
@@ -418,6 +431,7 @@ impl Session {
             shared,
             fault,
             slow_ms,
+            own_delay_ms,
             label,
             txn: b'I',
             copy: 0,
@@ -644,7 +658,10 @@ impl Session {
             if reply.dir.hold {
                 self.shared.wait_hold(&reply.tags).await;
             }
-            let slow = self.slow_ms.load(Ordering::SeqCst).max(reply.dir.delay_ms);
+            let mut slow = self.slow_ms.load(Ordering::SeqCst).max(reply.dir.delay_ms);
+            if reply.own {
+                slow = slow.max(self.own_delay_ms.swap(0, Ordering::SeqCst));
+            }
             if slow > 0 {
                 tokio::time::sleep(Duration::from_millis(slow)).await;
             }
@@ -711,7 +728,7 @@ impl Session {
             }
             self.ev(EvKind::ProtoErr { code: "08P01".into(), tag: self.copy_tag });
             let out = proto::error_response("FATAL", "08P01", &format!("unexpected message type 0x{:02X} during COPY from stdin", msg.code));
-            return Some((Reply { bytes: out, dir: Directive::default(), tags: vec![], close_after: true }, seq));
+            return Some((Reply { own: false, bytes: out, dir: Directive::default(), tags: vec![], close_after: true }, seq));
         }
         match msg.code {
             b'Q' => {
@@ -744,7 +761,7 @@ impl Session {
                                 Flow::Error => break,
                                 Flow::CopyIn => {
                                     // reply ends here; no ReadyForQuery until the copy finishes
-                                    return Some((Reply { bytes: out, dir, tags, close_after }, seq));
+                                    return Some((Reply { own: false, bytes: out, dir, tags, close_after }, seq));
                                 }
                                 Flow::Close => {
                                     close_after = true;
@@ -755,7 +772,7 @@ impl Session {
                     }
                 }
                 out.extend_from_slice(&proto::ready_for_query(self.txn));
-                Some((Reply { bytes: out, dir, tags, close_after }, seq))
+                Some((Reply { own, bytes: out, dir, tags, close_after }, seq))
             }
             b'P' => {
                 let p = proto::decode_parse(&msg.body);
@@ -935,7 +952,7 @@ impl Session {
                 if out.is_empty() {
                     return None;
                 }
-                Some((Reply { bytes: out, dir: Directive::default(), tags: self.ext_tags.clone(), close_after: false }, seq))
+                Some((Reply { own: false, bytes: out, dir: Directive::default(), tags: self.ext_tags.clone(), close_after: false }, seq))
             }
             b'S' => {
                 let tags = std::mem::take(&mut self.ext_tags);
@@ -949,7 +966,7 @@ impl Session {
                 let mut out = std::mem::take(&mut self.ext_out);
                 out.extend_from_slice(&proto::ready_for_query(self.txn));
                 let dir = std::mem::take(&mut self.ext_dir);
-                Some((Reply { bytes: out, dir, tags, close_after: false }, seq))
+                Some((Reply { own: false, bytes: out, dir, tags, close_after: false }, seq))
             }
             b'd' => {
                 let tags = scan_copy_tags(&msg.body);
@@ -975,13 +992,13 @@ impl Session {
                 }
                 self.copy_rows = 0;
                 out.extend_from_slice(&proto::ready_for_query(self.txn));
-                Some((Reply { bytes: out, dir: Directive::default(), tags, close_after: false }, seq))
+                Some((Reply { own: false, bytes: out, dir: Directive::default(), tags, close_after: false }, seq))
             }
             other => {
                 let seq = self.ev(EvKind::Rx { code: other, raw, tags: vec![], sql: None, own: false, snap });
                 let mut out = proto::error_response("FATAL", "08P01", &format!("invalid frontend message type {}", other));
                 out.extend_from_slice(&[]);
-                Some((Reply { bytes: out, dir: Directive::default(), tags: vec![], close_after: true }, seq))
+                Some((Reply { own: false, bytes: out, dir: Directive::default(), tags: vec![], close_after: true }, seq))
             }
         }
     }
